@@ -209,7 +209,15 @@ pub fn worker_main(args: &[String]) {
         status.set(1, 0);
         status.set(0, i + 1);
         arm_cpu_timer(cpu_budget);
-        let fam = profiles::episodes(&prop, tier, base_seed, i);
+        let fam = match std::panic::catch_unwind(|| profiles::episodes(&prop, tier, base_seed, i)) {
+            Ok(f) => f,
+            Err(_) => {
+                let mut o = stdout.lock();
+                let _ = writeln!(o, "{}", json!({"t":"harness-error", "what": format!("episode generation panicked for index {i}")}));
+                let _ = o.flush();
+                Vec::new()
+            }
+        };
         let mut j = 0u64;
         let mut queue: std::collections::VecDeque<Episode> = fam.into();
         while let Some(ep) = queue.pop_front() {
